@@ -661,7 +661,7 @@ func c01ExprFamily(n int) *c01Family {
 // ---------------------------------------------------------------------------
 // hostile strings at positions that parse their value
 
-var c01StringPositions = []string{"branches", "tags", "paths", "branches-ignore", "cron", "shell", "uses", "image", "label", "permission-scope", "permission-value", "job-id", "step-id", "env-key", "input-name", "needs", "types", "event-name", "working-directory", "credentials", "docker-args", "dispatch-type", "matrix-key", "output-name", "secret-name", "config-label", "config-var", "config-path", "config-ignore", "action-using", "action-input", "action-branding", "action-docker-image", "action-composite-step"}
+var c01StringPositions = []string{"branches", "tags", "paths", "branches-ignore", "cron", "shell", "uses", "image", "label", "permission-scope", "permission-value", "job-id", "step-id", "env-key", "input-name", "needs", "types", "event-name", "working-directory", "credentials", "docker-args", "dispatch-type", "matrix-key", "output-name", "secret-name", "config-label", "config-var", "config-path", "config-ignore", "action-using", "action-input", "action-branding", "action-docker-image", "action-composite-step", "run-script"}
 
 var c01StringAlphabet = []string{"a", "z", "A", "0", "9", "*", "**", "?", "+", "[", "]", "[a-z]", "[z-a]", "[]", "[!", "-", "!", "\\", "/", ".", "..", " ", "~", "^", ":", "@", "@{", "\n", "\r", "\t", "\x00", "\x7f", "é", "日本", "\xff", "'", "\"", "$", "${{", "}}", "{", "}", "#", "%", "&", "|", ",", ";", "=", "<", ">", "(", ")", "`", "_", "--", "//", "./", "../", "docker://", "@v1", "@", "*/5", "0 0 * * *", "@daily", "@every 1s", "60", "-1", "1-", "1/0", "JAN", "?", "L", "bash", "pwsh {0}", "python", "{0}", "ubuntu-latest", "self-hosted", "windows-", "read", "write", "none", "read-all", "contents"}
 
@@ -674,7 +674,21 @@ var c01PositionStrings = map[string][]string{
 	"cron":                {"0 0 30 2 *", "0 0 31 4 *", "* * * * * *", "@yearly", "*/0 * * * *", "60 * * * *", "0-59/1000 * * * *", "TZ=UTC * * * * *", "CRON_TZ=x * * * * *"},
 	"shell":               {"bash {0}", "{0}", "python {0}", "bash -e {0} {1}", "pwsh -command \". '{0}'\""},
 	"needs":               {"j1", "J1", ""},
+	"run-script":          c01RunScriptStrings(),
 	"job-id":              {"__proto__", "constructor", "toString"},
+}
+
+// c01RunScriptStrings: texts which the rules looking INTO run: scripts react to (workflow commands,
+// placeholders, shell syntax), each name in lower, upper and mixed letter case.
+func c01RunScriptStrings() []string {
+	var out []string
+	for _, cmd := range []string{"set-output", "save-state", "set-env", "add-path", "error", "group"} {
+		for _, v := range []string{cmd, strings.ToUpper(cmd), strings.ToUpper(cmd[:1]) + cmd[1:], cmd[:2] + strings.ToUpper(cmd[2:3]) + cmd[3:]} {
+			out = append(out, "echo '::"+v+" name=foo::bar'", "echo \"::"+v+"::/x\"", "::"+v+" name=a::", "echo ::"+v+" name=${{ github.sha }}::${{ x }}")
+		}
+	}
+	out = append(out, "echo ${{ github.event.issue.title }}", "echo ${{", "echo }} ${{ x }}", "echo $(( 1 + 1 )) ${A:-${B}}", "::", "::::", ":: ::", "::set-output", "::set-output ::", "echo '::set-output name=a::b' && echo '::SET-OUTPUT name=a::b'")
+	return out
 }
 
 // c01Dict: string literals of the repository's own non-test sources (read at check time), used
@@ -725,6 +739,12 @@ func c01HostileString(r *Rand) string {
 			t := d[r.Intn(len(d))]
 			if r.Chance(1, 4) && len(t) > 1 {
 				t = t[:r.Range(1, len(t))]
+			}
+			switch r.Intn(8) { // other letter case: names are matched case-insensitively in many places
+			case 0:
+				t = strings.ToUpper(t)
+			case 1:
+				t = strings.ToUpper(t[:1]) + t[1:]
 			}
 			sb.WriteString(t)
 			if r.Chance(1, 3) {
@@ -815,6 +835,9 @@ func c01StringFiles(pos, s string) map[string]string {
 		f[c01PathAction] = "name: a\ndescription: d\nruns:\n  using: docker\n  image: " + q + "\n  pre-entrypoint: " + q + "\n  entrypoint: " + q + "\n  post-entrypoint: " + q + "\n  args: [" + q + "]\n  env:\n    A: " + q + "\n"
 	case "action-composite-step":
 		f[c01PathAction] = "name: a\ndescription: d\nruns:\n  using: composite\n  steps:\n    - run: " + q + "\n      shell: " + q + "\n    - uses: " + q + "\n      with:\n        a: " + q + "\n"
+	case "run-script":
+		f[c01PathWorkflow] = wf("", "", "      - run: "+q+"\n      - run: |\n          echo start\n          "+strings.ReplaceAll(strings.ReplaceAll(s, "\r", ""), "\n", "\n          ")+"\n      - uses: actions/github-script@v7\n        with:\n          script: "+q+"\n")
+		f[c01PathAction] = "name: a\ndescription: d\nruns:\n  using: composite\n  steps:\n    - run: " + q + "\n      shell: bash\n"
 	case "action-branding":
 		f[c01PathAction] = "name: a\ndescription: d\nbranding:\n  icon: " + q + "\n  color: " + q + "\nruns:\n  using: composite\n  steps: []\n"
 	}
